@@ -62,10 +62,46 @@ def seeds_table():
         rows.append('| %s | %s | %s | %s | %s |' % (os.path.basename(d), m.get('property', '?'), str(m.get('needs', ''))[:300].replace('|', '/').replace('\n', ' '), conf, chk or '?'))
     return '\n'.join(rows)
 
+def mutants_table():
+    res = {}
+    for f in sorted(glob.glob(HERE + '/mutation/results*.jsonl')):
+        for l in open(f):
+            try: r = json.loads(l)
+            except Exception: continue
+            res[r['id']] = r          # later lines (re-runs after a check was strengthened) win
+    eq = {}
+    if os.path.exists(HERE + '/mutation/equivalent.json'):
+        eq = json.load(open(HERE + '/mutation/equivalent.json'))
+    if not res:
+        return '(no sweep recorded yet)'
+    by = {}
+    for r in res.values():
+        o = r.get('outcome', '?')
+        if o == 'missed' and r['id'] in eq: o = 'equivalent'
+        by.setdefault(r.get('area', ''), {}).setdefault(o, []).append(r)
+    tot = {}
+    rows = ['| area | mutants | detected (by check) | killed by the pinned unit tests | equivalent | missed |', '|---|---|---|---|---|---|']
+    for a in sorted(by):
+        d = by[a]
+        n = sum(len(v) for v in d.values())
+        det = {}
+        for r in d.get('detected', []): det[r.get('by', '?')] = det.get(r.get('by', '?'), 0) + 1
+        rows.append('| %s | %d | %d (%s) | %d | %d | %s |' % (a, n, len(d.get('detected', [])), ', '.join('%s×%d' % kv for kv in sorted(det.items())) or '—',
+                    len(d.get('killed-by-tests', [])), len(d.get('equivalent', [])), ', '.join(r['id'] for r in d.get('missed', [])) or '—'))
+        for k, v in d.items(): tot[k] = tot.get(k, 0) + len(v)
+    rows.append('| **total** | %d | %d | %d | %d | %d |' % (sum(tot.values()), tot.get('detected', 0), tot.get('killed-by-tests', 0), tot.get('equivalent', 0), tot.get('missed', 0)))
+    out = '\n'.join(rows)
+    miss = [r for r in res.values() if r.get('outcome') == 'missed']
+    if miss:
+        out += '\n\nMissed or equivalent mutants:\n'
+        for r in sorted(miss, key=lambda r: r['id']):
+            out += '\n* `%s` %s — %s%s' % (r['id'], r['file'], r.get('desc', '')[:260], (' — **equivalent**: ' + eq[r['id']]) if r['id'] in eq else ' — **blind spot**')
+    return out
+
 def main():
     p = HERE + '/DESIGN.md'
     s = open(p).read()
-    for name, fn in (('props', prop_table), ('findings', findings_list), ('seeds', seeds_table)):
+    for name, fn in (('props', prop_table), ('findings', findings_list), ('seeds', seeds_table), ('mutants', mutants_table)):
         b, e = '<!-- BEGIN:%s -->' % name, '<!-- END:%s -->' % name
         if b in s and e in s:
             s = s[:s.index(b) + len(b)] + '\n' + fn() + '\n' + s[s.index(e):]
